@@ -23,6 +23,7 @@ def hostOf (beh : String) (id : Option Ident) (g : Option Caps) : Option Host :=
   | "closeMidHandshake" => some { ok with version := .close }
   | "garbageMidHandshake" => some { ok with version := .garbage }
   | "stallMidExchange" => some { ok with config := .stall }
+  | "trickleConfig" => some { ok with config := .stall }   -- a reply that keeps arriving byte by byte never completes in time
   | "closeMidExchange" => some { ok with config := .close }
   | "configRefused" => some { ok with config := .refused }
   | "stallCaps" => some { ok with caps := .stall }
